@@ -39,7 +39,8 @@ type failure struct {
 type refEnt struct {
 	data    []byte
 	trusted bool
-	tainted bool // was marked invalid at some time: no further claims about this hash
+	tainted bool // was marked invalid after it had been written: no further claims about this hash
+	flushed bool // the real store's write queue was seen empty since this block was added
 	spec    BlockSpec
 }
 
@@ -192,6 +193,10 @@ func (x *runner) runHistory(h *History, count bool) (fails []failure) {
 		return hashes[b]
 	}
 	ref := map[[32]byte]*refEnt{}
+	// hashes marked invalid while their block was still queued: the store forgets them ("never write it"); the same
+	// hash may be stored again later and is then a new block of the reference map
+	removedQ := map[[32]byte]bool{}
+	allAdds := map[[32]byte][]int{} // every block number ever handed to BlockAdd under a hash
 	var db *chain.BlockDB
 	var cur Opts
 	retention := false // some configuration of this history lets data files fall out of retention
@@ -243,6 +248,27 @@ func (x *runner) runHistory(h *History, count bool) (fails []failure) {
 			}
 		}
 		return found
+	}
+
+	// known finding `backup-shadowed-by-new-file`: the block's data file was moved to oldat/ (backup) and a NEW file with
+	// the same number exists in the main directory (LoadBlockIndex fell back to that number because every block of the
+	// newer files was invalid, and created it); BlockGet opens the main directory first
+	shadowed := func(b int) bool {
+		if b < 0 || b >= len(datas) {
+			return false
+		}
+		ix, _ := os.ReadFile(filepath.Join(dir, "blockchain.new"))
+		for p := 0; p+136 <= len(ix); p += 136 {
+			if bytes.Equal(ix[p+56:p+136], datas[b][:80]) && ix[p]&2 == 0 {
+				idx := uint64(ix[p+28]) | uint64(ix[p+29])<<8 | uint64(ix[p+30])<<16 | uint64(ix[p+31])<<24
+				_, e1 := os.Stat(filepath.Join(dir, fmt.Sprintf("bl%08d.dat", idx)))
+				_, e2 := os.Stat(filepath.Join(dir, "oldat", fmt.Sprintf("bl%08d.dat", idx)))
+				if e1 == nil && e2 == nil {
+					return true
+				}
+			}
+		}
+		return false
 	}
 
 	for opi, op := range h.Ops {
@@ -300,6 +326,10 @@ func (x *runner) runHistory(h *History, count bool) (fails []failure) {
 			for _, w := range wl {
 				listed[w.hash]++
 				e := ref[w.hash]
+				if e == nil && removedQ[w.hash] {
+					fail("prop", "reopen-lists-removed-block", fmt.Sprintf("%s: LoadBlockIndex lists %x, which was marked invalid before it was written and not stored again", where, w.hash[:8]))
+					continue
+				}
 				if e == nil {
 					fail("prop", "reopen-lists-unknown-block", fmt.Sprintf("%s: LoadBlockIndex lists %x which was never added", where, w.hash[:8]))
 					continue
@@ -307,7 +337,16 @@ func (x *runner) runHistory(h *History, count bool) (fails []failure) {
 				if listed[w.hash] > 1 && !e.tainted {
 					fail("prop", "reopen-lists-twice", fmt.Sprintf("%s: %x listed twice", where, w.hash[:8]))
 				}
-				if w.height != e.spec.Height || int(w.blen) != len(e.data) || w.txs != e.spec.TxCount {
+				match := w.height == e.spec.Height && int(w.blen) == len(e.data) && w.txs == e.spec.TxCount
+				if e.tainted {
+					// no claim about which of the blocks stored under a hash that was marked invalid on disk is listed
+					for _, b := range allAdds[w.hash] {
+						if w.height == h.Blocks[b].Height && int(w.blen) == len(datas[b]) && w.txs == h.Blocks[b].TxCount {
+							match = true
+						}
+					}
+				}
+				if !match {
 					fail("prop", "reopen-wrong-fields", fmt.Sprintf("%s: %x listed with height=%d size=%d txs=%d, stored %d/%d/%d",
 						where, w.hash[:8], w.height, w.blen, w.txs, e.spec.Height, len(e.data), e.spec.TxCount))
 				}
@@ -330,9 +369,11 @@ func (x *runner) runHistory(h *History, count bool) (fails []failure) {
 			}
 			line = fmt.Sprintf("add %s %d %d %s %s", hx, h.Blocks[op.B].Height, h.Blocks[op.B].TxCount, b01(op.Flag), vlib.Hex(datas[op.B]))
 			call(func() { db.BlockAdd(h.Blocks[op.B].Height, bl) })
+			allAdds[hs] = append(allAdds[hs], op.B)
 			real = "ok"
 			if e := ref[hs]; e == nil {
 				ref[hs] = &refEnt{data: datas[op.B], trusted: op.Flag, spec: h.Blocks[op.B]}
+				delete(removedQ, hs)
 			} else if op.Flag {
 				e.trusted = true
 			}
@@ -351,11 +392,13 @@ func (x *runner) runHistory(h *History, count bool) (fails []failure) {
 			}
 			if re := ref[hs]; re == nil {
 				if e == nil {
-					fail("prop", "get-unknown-returns-data", where+": BlockGet of a hash that was never added returned data")
+					fail("prop", "get-unknown-returns-data", where+": BlockGet of a hash that was never added (or was marked invalid before it was written) returned data")
 				}
 			} else if !re.tainted && !panicked {
 				if e != nil {
-					if !outOfRetention(op.B) {
+					if shadowed(op.B) {
+						fail("prop", "backup-shadowed-by-new-file", fmt.Sprintf("%s: BlockGet of stored block %x fails (%v): its data file is in oldat/ and a new file with the same number was created in the main directory", where, hs[:8], e))
+					} else if !outOfRetention(op.B) {
 						fail("prop", "get-stored-fails", fmt.Sprintf("%s: BlockGet of stored block %x fails: %v", where, hs[:8], e))
 					} else {
 						hit("get:out-of-retention")
@@ -363,6 +406,8 @@ func (x *runner) runHistory(h *History, count bool) (fails []failure) {
 				} else {
 					if !bytes.Equal(bl, re.data) && outOfRetention(op.B) {
 						hit("get:out-of-retention-overwritten")
+					} else if !bytes.Equal(bl, re.data) && shadowed(op.B) {
+						fail("prop", "backup-shadowed-by-new-file", fmt.Sprintf("%s: BlockGet of stored block %x returns other bytes: its data file is in oldat/ and a new file with the same number was created in the main directory", where, hs[:8]))
 					} else if !bytes.Equal(bl, re.data) {
 						fail("prop", "get-wrong-bytes", fmt.Sprintf("%s: BlockGet of %x returns %d bytes that differ from the %d stored", where, hs[:8], len(bl), len(re.data)))
 					}
@@ -382,7 +427,7 @@ func (x *runner) runHistory(h *History, count bool) (fails []failure) {
 				real = fmt.Sprintf("len %d", l)
 			}
 			if re := ref[hs]; re != nil && !re.tainted && !panicked && op.Flag {
-				if e == nil && int(l) != len(re.data) {
+				if e == nil && int(l) != len(re.data) && !shadowed(op.B) {
 					fail("prop", "blocklength-wrong", fmt.Sprintf("%s: BlockLength(%x, decode_if_needed) = %d, stored block has %d bytes", where, hs[:8], l, len(re.data)))
 				}
 			}
@@ -397,8 +442,13 @@ func (x *runner) runHistory(h *History, count bool) (fails []failure) {
 			line = "invalid " + hx
 			call(func() { db.BlockInvalid(hs[:]) })
 			real = "ok"
-			if e := ref[hs]; e != nil {
-				e.tainted = true
+			if e := ref[hs]; e != nil && !panicked {
+				if e.flushed {
+					e.tainted = true
+				} else {
+					delete(ref, hs)
+					removedQ[hs] = true
+				}
 			}
 		case "idle":
 			line = "idle"
@@ -413,6 +463,15 @@ func (x *runner) runHistory(h *History, count bool) (fails []failure) {
 		}
 		if panicked && real != "panic" {
 			real = "panic"
+		}
+		// the only panic the store's contract has is BlockInvalid of a block that was marked trusted; any other one
+		// leaves db.mutex locked: nothing that was stored can be read back any more
+		if panicked {
+			if e := ref[hs]; op.Op != "invalid" {
+				fail("prop", "op-panics", fmt.Sprintf("%s: the operation panics; the store is unusable afterwards", where))
+			} else if e == nil || !e.trusted {
+				fail("prop", "invalid-panics-on-untrusted-block", fmt.Sprintf("%s: BlockInvalid of %x, which was never marked trusted, panics with db.mutex held; nothing stored can be read back afterwards", where, hs[:8]))
+			}
 		}
 		model := x.o.MustAsk(line)
 		if model == "bad-op" || model == "bad" {
@@ -431,6 +490,9 @@ func (x *runner) runHistory(h *History, count bool) (fails []failure) {
 			return
 		}
 		if op.Op == "close" {
+			for _, e := range ref {
+				e.flushed = true
+			}
 			db = nil
 			scanDir()
 			rf := dirFiles(dir)
@@ -456,6 +518,10 @@ func (x *runner) runHistory(h *History, count bool) (fails []failure) {
 			}
 			if q > 0 {
 				hit("state:writes-queued")
+			} else {
+				for _, e := range ref {
+					e.flushed = true
+				}
 			}
 		}
 	}
